@@ -3,6 +3,30 @@ EXTENDS PongoApi, Json
 Init == GenInit /\ ApiInit
 Next == GenNext /\ UNCHANGED apiVars
 Emit == GenDone => PrintT(ToJson([m |-> "PongoApi", toks |-> form]))
+\* the systematic part of the quantifier "all programs x all contexts": every operator between every pair of names of the
+\* value universe, every registered filter on every name with every name (and a few literals) as parameter, every name
+\* as the operand of the looping / membership / indexing constructs
+CONSTANTS CrossFamily
+Lits == {"0", "1", "\"a\"", "\"0:1\"", "nope", "-1", "99999999999", "1.5"}
+CrossInit ==
+  /\ ApiInit /\ steps = 0
+  /\ CASE CrossFamily = "ops" ->
+            (\E a \in CtxNames \cup Lits, b \in CtxNames \cup Lits, op \in Ops : form = <<"{{ ", a, " ", op, " ", b, " }}{% if ", b, " ", op, " ", a, " %}x{% endif %}">>)
+       [] CrossFamily = "filters" ->
+            (\E a \in CtxNames, f \in RegFilters, b \in CtxNames \cup Lits : form = <<"{{ ", a, "|", f, ":", b, " }}{{ ", a, "|", f, " }}">>)
+       [] CrossFamily = "constructs" ->
+            (\E a \in CtxNames, b \in CtxNames \cup Lits, k \in 1..8 :
+               form = CASE k = 1 -> <<"{% for i in ", a, " %}{{ i }}{{ forloop.Last }}{% for j in i %}{{ j }}{% endfor %}{% empty %}e{% endfor %}">>
+                        [] k = 2 -> <<"{% for k, v in ", a, " sorted %}{{ k }}{{ v }}{% endfor %}{% for k in ", a, " reversed sorted %}{{ k }}{% endfor %}">>
+                        [] k = 3 -> <<"{{ ", a, "[", b, "] }}{{ ", a, ".", "0", " }}{{ ", a, ".", "F", " }}{{ ", a, ".", "nope.x", " }}">>
+                        [] k = 4 -> <<"{{ ", a, "(", b, ") }}{{ ", a, "() }}{{ ", a, "(", b, ", ", b, ") }}">>
+                        [] k = 5 -> <<"{% ifequal ", a, " ", b, " %}=", "{% endifequal %}{% ifchanged ", a, " %}c{% endifchanged %}{% firstof ", a, " ", b, " %}">>
+                        [] k = 6 -> <<"{% widthratio ", a, " ", b, " 100 %}{% cycle ", a, " ", b, " %}{% with z=", a, " %}{{ z|length }}{% endwith %}">>
+                        [] k = 7 -> <<"{% include ", a, " %}">>
+                        [] k = 8 -> <<"{% filter ", "join:", b, "|slice:", b, " %}{{ ", a, " }}{% endfilter %}{{ [", a, ", ", b, "]|join:", b, " }}">>)
+CrossNext == FALSE /\ UNCHANGED <<apiVars, genVars>>
+CrossEmit == PrintT(ToJson([m |-> "PongoApi", toks |-> form]))
+
 \* the API machine on its own (its two safety properties)
 ApiSpecInit == ApiInit /\ form = <<>> /\ steps = 0
 ApiSpecNext == ApiNext /\ UNCHANGED genVars
